@@ -23,6 +23,20 @@ func (cr *coreRun) attach() {
 func (cr *coreRun) finalChecks() {
 	w := cr.w
 	// C03: exactly one terminal reply per request, at most one later EXPRIED notice, right client
+	// requests whose LockId is used by a require-ack request on the same key get classes of their
+	// own: the "awaits acknowledgement" state of a hold is established asynchronously (finding F66)
+	ackLid := map[string]bool{}
+	for _, r := range cr.h.order {
+		if r.Op.Cmd == protocol.COMMAND_LOCK && r.Op.TFlag&tfAck != 0 {
+			ackLid[fmt.Sprintf("%d/%d/%d", r.Op.Db, r.Op.Key, r.Op.Lid)] = true
+		}
+	}
+	pre := func(r *ReqRec) string {
+		if ackLid[fmt.Sprintf("%d/%d/%d", r.Op.Db, r.Op.Key, r.Op.Lid)] {
+			return "ack_"
+		}
+		return ""
+	}
 	for _, r := range cr.h.order {
 		if !r.Sent || r.lost {
 			continue
@@ -31,7 +45,7 @@ func (cr *coreRun) finalChecks() {
 			if r.excused {
 				continue // reported below as reply_from_recycled_command
 			}
-			w.violate("C03", "no_reply", "request %s was never answered", r)
+			w.violate("C03", pre(r)+"no_reply", "request %s was never answered", r)
 			continue
 		}
 		for i, rep := range r.Replies {
@@ -46,11 +60,11 @@ func (cr *coreRun) finalChecks() {
 		if len(r.Replies) > 1 {
 			granted := r.Op.Cmd == protocol.COMMAND_LOCK && (first.Result == protocol.RESULT_SUCCED || (first.Result == protocol.RESULT_LOCKED_ERROR && r.Op.Flag&protocol.LOCK_FLAG_UPDATE_WHEN_LOCKED != 0))
 			if len(r.Replies) > 2 || r.Replies[1].Result != protocol.RESULT_EXPRIED || !granted {
-				w.violate("C03", "extra_reply", "request %s got %d replies: results %v", r, len(r.Replies), replyResults(r))
+				w.violate("C03", pre(r)+"extra_reply", "request %s got %d replies: results %v", r, len(r.Replies), replyResults(r))
 			}
 		}
 		if first.Result == protocol.RESULT_EXPRIED {
-			w.violate("C03", "expired_first", "request %s: first reply is an EXPRIED notice", r)
+			w.violate("C03", pre(r)+"expired_first", "request %s: first reply is an EXPRIED notice", r)
 		}
 	}
 	for _, tc := range cr.texts {
